@@ -131,6 +131,9 @@ add("C18", "codec", "exploration", "runtime monitor: metamorphic round-trip rela
 add("C31", "history", "exploration", "runtime monitor: structural invariant walker over every dynamic-array anchor and spill cell at every quiescent point of random histories, with shape and elements recomputed by the harness for a family of formulas",
     "After every step of random UserModel histories the walker checks block ownership, #SPILL! exactly when the block the harness computes is occupied or off the grid, no stale or orphan spill cells, typed content never replaced by a spill, and shape/elements for SEQUENCE, range, range*k and TRANSPOSE formulas.",
     "Expected elements are computed from the values the engine shows for the source cells (numbers and blanks). Formulas whose source holds errors, overlaps their own block, or whose elements show #CIRC! (arrays reading each other: C05) are not judged on elements.")
+add("C32", "formula", "exploration", "runtime monitor: before/after relations around one edit (language, locale, sheet rename/move/delete, to_bytes/from_bytes, xlsx round trip, name rename) on workbooks whose formulas use defined names",
+    "Stored name formulas must be the expected ones (unchanged, or carrying the renamed sheet / name) and every judged cell must show the same value after the edit.",
+    "The engine only accepts a reference, a range or a LAMBDA as a name's formula, which bounds the generator. After a sheet deletion, names scoped to or reading that sheet and the cells using them are not judged.")
 
 NOT_YET = {}
 
